@@ -586,8 +586,10 @@ class KMeansL1L2(KMeans):
             )
 
         # an earlier fit of the same instance (with norm='L2' for example)
-        # may have recorded another number of features
+        # may have recorded another number of features or column names
         self.n_features_in_ = X.shape[1]
+        if hasattr(self, "feature_names_in_"):
+            del self.feature_names_in_
 
         tol = _tolerance(self.norm, X, self.tol)
 
